@@ -13,6 +13,7 @@ From V Require Model.Date Model.Time.
 From V Require Import Spec.Gregorian Model.DateTime Model.Parsed Proofs.C08Sweeps Proofs.C14 Proofs.C14Date Proofs.C14Iso.
 From V Require Proofs.C04.
 From V Require Import Proofs.C14Zoned.
+From V Require Import Proofs.C14Stamp.
 Import ListNotations.
 Open Scope Z_scope.
 
@@ -476,3 +477,130 @@ Example C14_datetime_completeness_inhabited :
   to_datetime (fields_of_local 2014 365 (Time.mk_time 16000 0) 34200 (Some 1419965800)) = Val (Ok ex_zoned).
 Proof. exact ex_zoned_complete. Qed.
 Print Assumptions C14_datetime_completeness_inhabited.
+
+(** ** The timestamp arm of to_naive_datetime_with_offset: COMPLETENESS (Proofs/C14Stamp.v).
+    The arm is taken when date and time do not both resolve from the fields alone and neither
+    reports 'out of range' / 'impossible' ([soft rd rt]); the value is rebuilt from the timestamp
+    plus the offset argument, the leap-second step, and the fields it adds (second, year, ordinal,
+    hour, minute) are cross-checked by the setters. *)
+
+(** reduction form: every supplied field is that of the value [v] (a supported date, a time of day
+    whose leap-second form sits on second 59 and then has [second = 60]; the nanosecond field,
+    absent = 0, is the fraction), the ISO year group is absent or determinate, the timestamp field is
+    v's own count of non-leap seconds less the offset argument -- or one more for a leap-second
+    value (not the last second of the range): the result is exactly [v], for EVERY offset argument *)
+Theorem C14_timestamp_arm_complete : forall y o v p off rd rt,
+  repr y o (nd_date v) -> typed p ->
+  to_naive_date p = Val rd -> to_naive_time p = Val rt -> soft rd rt = true ->
+  date_sound p (nd_date v) -> time_sound p (nd_time v) -> stamp_time_ok p (nd_time v) ->
+  group_ok (fst (iso_of_dn (dn_of_yo y o))) (p_isoyear p) (p_isoyear_div_100 p) (p_isoyear_mod_100 p) ->
+  ts_of_value p y o v off ->
+  to_naive_datetime_with_offset p off = Val (Ok v).
+Proof. exact naive_datetime_by_timestamp. Qed.
+Print Assumptions C14_timestamp_arm_complete.
+
+(** a state holding just the timestamp [, second [, nanosecond]] [, offset] always takes the arm *)
+Theorem C14_timestamp_only_takes_arm : forall g sec nano ofs,
+  to_naive_date (stamp_fields g sec nano ofs) = Val (Err NotEnough) /\
+  to_naive_time (stamp_fields g sec nano ofs) = Val (Err NotEnough) /\
+  soft (Err NotEnough) (Err NotEnough) = true.
+Proof. exact (fun g sec nano ofs => conj (proj1 (stamp_fields_first_try g sec nano ofs))
+                                     (conj (proj2 (stamp_fields_first_try g sec nano ofs)) eq_refl)). Qed.
+Print Assumptions C14_timestamp_only_takes_arm.
+
+(** THE EXACT OUTCOME for such a state, every i64 timestamp, every offset argument, second and
+    nanosecond anywhere in their setters' ranges ([stamp_outcome], with L = timestamp + offset):
+    'out of range' when L leaves i64 or the supported dates; otherwise the date-time of L with the
+    nanosecond field, provided a second field other than 60 equals L mod 60 (else 'impossible').
+    [second = 60] together with a timestamp is accepted exactly when L mod 60 = 59 (the result is
+    second :59 of L with the leap flag) or L mod 60 = 0 (the result is the second before L with the
+    leap flag; 'out of range' when that second lies before the first supported date -- the repaired
+    defect); any other L mod 60 is 'impossible' *)
+Theorem C14_timestamp_only_outcome : forall g sec nano ofs off, in_i64 g = true ->
+  (forall v, sec = Some v -> 0 <= v <= 60) -> (forall n, nano = Some n -> 0 <= n <= 999999999) ->
+  (forall v, ofs = Some v -> in_i32 v = true) ->
+  to_naive_datetime_with_offset (stamp_fields g sec nano ofs) off = Val (stamp_outcome (g + off) sec nano).
+Proof. exact stamp_fields_spec. Qed.
+Print Assumptions C14_timestamp_only_outcome.
+
+(** EVERY supported NaiveDateTime [v] -- whole seconds, with a fraction, the leap-second form on
+    :59 -- and every offset argument: timestamp = v's timestamp less the offset [, second: 60 for the
+    leap form, else absent or v's second] [, nanosecond: v's fraction, absent when 0] resolves to [v] *)
+Theorem C14_to_naive_datetime_of_timestamp : forall y o v off g sec nano ofs,
+  repr y o (nd_date v) -> Proofs.C04.time_ok (nd_time v) -> leap_on_59 (nd_time v) ->
+  dt_timestamp v = Val (g + off) -> in_i64 g = true ->
+  second_field_ok sec (nd_time v) -> nano_field_ok nano (nd_time v) ->
+  (forall x, ofs = Some x -> in_i32 x = true) ->
+  to_naive_datetime_with_offset (stamp_fields g sec nano ofs) off = Val (Ok v).
+Proof. exact naive_datetime_of_stamp. Qed.
+Print Assumptions C14_to_naive_datetime_of_timestamp.
+
+(** COMPLETENESS of to_datetime / to_datetime_with_timezone through the timestamp arm: [z] a
+    well-formed DateTime<FixedOffset> whose wall clock [l] lies on a supported date; the fields are
+    those of [l] as above, the timestamp field is the timestamp of [z], the offset field is the
+    offset of [z] (to_datetime: may be absent for offset 0; with_timezone: may be absent) *)
+Theorem C14_to_datetime_by_timestamp : forall z l y o p rd rt g,
+  Proofs.C04.dtz_ok z -> overflowing_naive_local z = Val l -> repr y o (nd_date l) -> typed p ->
+  to_naive_date p = Val rd -> to_naive_time p = Val rt -> soft rd rt = true ->
+  date_sound p (nd_date l) -> time_sound p (nd_time l) -> stamp_time_ok p (nd_time l) ->
+  group_ok (fst (iso_of_dn (dn_of_yo y o))) (p_isoyear p) (p_isoyear_div_100 p) (p_isoyear_mod_100 p) ->
+  p_timestamp p = Some g -> dt_timestamp (dz_utc z) = Val g ->
+  offset_field_ok (p_offset p) (dz_off z) ->
+  to_datetime p = Val (Ok z).
+Proof. exact datetime_by_timestamp. Qed.
+Print Assumptions C14_to_datetime_by_timestamp.
+
+Theorem C14_to_datetime_with_timezone_by_timestamp : forall z l y o p rd rt g,
+  Proofs.C04.dtz_ok z -> overflowing_naive_local z = Val l -> repr y o (nd_date l) -> typed p ->
+  to_naive_date p = Val rd -> to_naive_time p = Val rt -> soft rd rt = true ->
+  date_sound p (nd_date l) -> time_sound p (nd_time l) -> stamp_time_ok p (nd_time l) ->
+  group_ok (fst (iso_of_dn (dn_of_yo y o))) (p_isoyear p) (p_isoyear_div_100 p) (p_isoyear_mod_100 p) ->
+  p_timestamp p = Some g -> dt_timestamp (dz_utc z) = Val g ->
+  (p_offset p = None \/ p_offset p = Some (dz_off z)) ->
+  to_datetime_with_timezone p (dz_off z) = Val (Ok z).
+Proof. exact datetime_with_timezone_by_timestamp. Qed.
+Print Assumptions C14_to_datetime_with_timezone_by_timestamp.
+
+(** ... for the state holding just the timestamp of [z] [, second [, nanosecond]] and the offset; the
+    second is that of the WALL CLOCK (an offset need not be a whole minute) *)
+Theorem C14_to_datetime_of_timestamp : forall z l y o g sec nano ofs,
+  Proofs.C04.dtz_ok z -> overflowing_naive_local z = Val l -> repr y o (nd_date l) -> leap_on_59 (nd_time l) ->
+  dt_timestamp (dz_utc z) = Val g ->
+  second_field_ok sec (nd_time l) -> nano_field_ok nano (nd_time l) -> offset_field_ok ofs (dz_off z) ->
+  to_datetime (stamp_fields g sec nano ofs) = Val (Ok z).
+Proof. exact datetime_of_stamp. Qed.
+Print Assumptions C14_to_datetime_of_timestamp.
+
+Theorem C14_to_datetime_with_timezone_of_timestamp : forall z l y o g sec nano ofs,
+  Proofs.C04.dtz_ok z -> overflowing_naive_local z = Val l -> repr y o (nd_date l) -> leap_on_59 (nd_time l) ->
+  dt_timestamp (dz_utc z) = Val g ->
+  second_field_ok sec (nd_time l) -> nano_field_ok nano (nd_time l) -> (ofs = None \/ ofs = Some (dz_off z)) ->
+  to_datetime_with_timezone (stamp_fields g sec nano ofs) (dz_off z) = Val (Ok z).
+Proof. exact datetime_with_timezone_of_stamp. Qed.
+Print Assumptions C14_to_datetime_with_timezone_of_timestamp.
+
+(** EVERY DateTime<Utc> (negative timestamps included): its timestamp alone resolves to it *)
+Theorem C14_utc_datetime_of_timestamp : forall y o v g sec nano ofs,
+  repr y o (nd_date v) -> Proofs.C04.time_ok (nd_time v) -> leap_on_59 (nd_time v) ->
+  dt_timestamp v = Val g ->
+  second_field_ok sec (nd_time v) -> nano_field_ok nano (nd_time v) -> (ofs = None \/ ofs = Some 0) ->
+  to_datetime (stamp_fields g sec nano ofs) = Val (Ok (mk_dtz v 0)) /\
+  to_datetime_with_timezone (stamp_fields g sec nano ofs) 0 = Val (Ok (mk_dtz v 0)).
+Proof. exact utc_datetime_of_stamp. Qed.
+Print Assumptions C14_utc_datetime_of_timestamp.
+
+(** inhabited: timestamp -1; the leap second 2012-06-30T23:59:60.5 from either neighbouring
+    timestamp and refused from the one after; an offset of +05:30:15 (wall-clock second 55) *)
+Example C14_timestamp_arm_inhabited :
+  repr 1969 365 (nd_date ex_neg) /\ Proofs.C04.time_ok (nd_time ex_neg) /\ leap_on_59 (nd_time ex_neg) /\
+  dt_timestamp ex_neg = Val (-1) /\ second_field_ok None (nd_time ex_neg) /\ nano_field_ok None (nd_time ex_neg) /\
+  to_datetime (stamp_fields (-1) None None None) = Val (Ok (mk_dtz ex_neg 0)) /\
+  repr 2012 182 (nd_date ex_leap) /\ Proofs.C04.time_ok (nd_time ex_leap) /\ leap_on_59 (nd_time ex_leap) /\
+  second_field_ok (Some 60) (nd_time ex_leap) /\ nano_field_ok (Some 500000000) (nd_time ex_leap) /\
+  to_naive_datetime_with_offset (stamp_fields 1341100799 (Some 60) (Some 500000000) None) 0 = Val (Ok ex_leap) /\
+  to_naive_datetime_with_offset (stamp_fields 1341100800 (Some 60) (Some 500000000) None) 0 = Val (Ok ex_leap) /\
+  to_naive_datetime_with_offset (stamp_fields 1341100801 (Some 60) None None) 0 = Val (Err Impossible) /\
+  Proofs.C04.dtz_ok ex_odd_zone /\
+  to_datetime (stamp_fields 1419965800 (Some 55) None (Some 19815)) = Val (Ok ex_odd_zone).
+Proof. exact ex_stamp_inhabited. Qed.
+Print Assumptions C14_timestamp_arm_inhabited.
